@@ -84,7 +84,7 @@ func genC02(t *rapid.T) c02Case {
 			c.Ops = append(c.Ops, op{K: "reload"})
 		case "search":
 			var p M
-			po := gen.PatOpts{PropVar: true}
+			po := gen.PatOpts{PropVar: true, Optional: true}
 			if len(pool) > 0 && rapid.IntRange(0, 5).Draw(t, l+".derived?") != 0 {
 				p = gen.Derive(t, po, rapid.SampledFrom(pool).Draw(t, l+".from"), l+".pat")
 			} else {
